@@ -56,9 +56,10 @@ def _cut_tests(src):
     return src if i < 0 else src[:i]
 
 
-@item("SAFE_PRODUCER_SITES")
-def _sites(repo):
-    sites = set()
+def _scan_sites(repo):
+    """per (file, enclosing fn): how many times a Safe string is constructed (`mark`), how many
+    `preserve_safety` calls (`preserve`), how many reads of the bit (`read`)"""
+    out = {}
     files = (glob.glob(os.path.join(repo, "minijinja/src/**/*.rs"), recursive=True)
              + glob.glob(os.path.join(repo, "minijinja-contrib/src/**/*.rs"), recursive=True))
     for path in sorted(files):
@@ -71,18 +72,50 @@ def _sites(repo):
             m = re.search(r"\bfn\s+(\w+)", line)
             if m:
                 cur = m.group(1)
-            if re.search(r"\bfn\s+from_safe_string\b", line):
+            if re.search(r"\bfn\s+(from_safe_string|preserve_safety|is_safe)\b", line):
                 continue
-            produces = "from_safe_string(" in line
-            # direct construction (not a pattern: patterns bind with `ref`/`_` or sit in matches!/if let)
+            n_mark = line.count("from_safe_string(")
             if "StringType::Safe" in line and not re.search(r"matches!|if let|=>|ref\s", line):
-                produces = True
-            if produces:
-                sites.add(f"{rel}::{cur}")
-    if not sites:
-        raise KeyError("no safe-string producer found")
-    sites = sorted(sites)
-    return sites, "def safeProducerSites : List String := [" + ", ".join(lean_str(s) for s in sites) + "]"
+                n_mark += 1
+            n_pres = line.count("preserve_safety(")
+            n_read = len(re.findall(r"is_safe\(\)", line)) + len(re.findall(r"StringInput::is_safe\b", line))
+            if "StringType::Safe" in line and re.search(r"matches!|if let|=>", line):
+                n_read += 1
+            for kind, n in (("mark", n_mark), ("preserve", n_pres), ("read", n_read)):
+                if n:
+                    out[(rel, cur, kind)] = out.get((rel, cur, kind), 0) + n
+    return out
+
+
+@item("SAFE_PRODUCER_SITES")
+def _sites(repo):
+    sc = _scan_sites(repo)
+    prod = sorted(f"{rel}::{fn}::{kind}x{n}" for (rel, fn, kind), n in sc.items() if kind in ("mark", "preserve"))
+    read = sorted(f"{rel}::{fn}::{kind}x{n}" for (rel, fn, kind), n in sc.items() if kind == "read")
+    if not prod or not read:
+        raise KeyError("no safe-string producer/reader found")
+    lst = lambda xs: "[" + ", ".join(lean_str(x) for x in xs) + "]"
+    return {"producers": prod, "readers": read}, (f"def safeProducerSites : List String := {lst(prod)}\n"
+                                                   f"def safeBitReaderSites : List String := {lst(read)}")
+
+
+@item("PYCOMPAT_METHODS")
+def _pycompat(repo):
+    src = _strip_comments(read(repo, "minijinja-contrib/src/pycompat.rs"))
+    names = []
+    for fn, kind in (("string_methods", "str"), ("map_methods", "dict"), ("seq_methods", "list")):
+        body = fn_body(src, r"fn %s\([^)]*\)\s*->\s*Result<Value, Error>\s*\{" % fn)
+        inner = fn_body(body, r"match method\s*\{")
+        for arm in re.findall(r"^\s{8}((?:\"\w+\"\s*\|\s*)*\"\w+\")\s*=>", inner, re.M):
+            names += [f"{kind}.{n}" for n in re.findall(r"\"(\w+)\"", arm)]
+    # dispatch on the receiver kind
+    disp = fn_body(src, r"pub fn unknown_method_callback\(")
+    if not (re.search(r"ValueKind::String\s*=>\s*string_methods", disp) and re.search(r"ValueKind::Map\s*=>\s*map_methods", disp)
+            and re.search(r"ValueKind::Seq\s*=>\s*seq_methods", disp)):
+        raise KeyError("unknown_method_callback dispatch")
+    if len(names) < 20:
+        raise KeyError("pycompat method arms")
+    return names, "def pycompatMethodNames : List String := [" + ", ".join(lean_str(n) for n in names) + "]"
 
 
 @item("FILTER_NAMES")
@@ -114,11 +147,6 @@ def _autoescape(repo):
         raise KeyError("IGNORED_EXTENSIONS")
     ignored = re.findall(r"\"([^\"]*)\"", m.group(1))
     body = fn_body(src, r"pub fn default_auto_escape_callback\(mut name: &str\) -> AutoEscape\s*\{")
-    # shape: strip the first matching ignored suffix, then look at what follows the LAST dot
-    if not re.search(r"for ext in IGNORED_EXTENSIONS\s*\{\s*if let Some\(stripped\) = name\.strip_suffix\(ext\)\s*\{\s*name = stripped;\s*break;", body):
-        raise KeyError("default_auto_escape_callback: suffix stripping loop")
-    if not re.search(r"match name\.rsplit\('\.'\)\.next\(\)\s*\{", body):
-        raise KeyError("default_auto_escape_callback: extension = text after the last dot")
     mh = re.search(r"Some\(([^)]*)\)\s*=>\s*AutoEscape::Html", body)
     mj = re.search(r"Some\(([^)]*)\)\s*=>\s*AutoEscape::Json", body)
     if not mh or not mj or not re.search(r"_\s*=>\s*AutoEscape::None", body):
@@ -126,7 +154,21 @@ def _autoescape(repo):
     html = re.findall(r"\"([^\"]*)\"", mh.group(1))
     jsn = re.findall(r"\"([^\"]*)\"", mj.group(1))
     lst = lambda xs: "[" + ", ".join(lean_str(x) for x in xs) + "]"
-    lean = (f"def autoEscapeIgnoredExts : List String := {lst(ignored)}\n"
-            f"def autoEscapeHtmlExts : List String := {lst(html)}\n"
-            f"def autoEscapeJsonExts : List String := {lst(jsn)}")
+    lean = (f"def c02AutoEscapeIgnoredExts : List String := {lst(ignored)}\n"
+            f"def c02AutoEscapeHtmlExts : List String := {lst(html)}\n"
+            f"def c02AutoEscapeJsonExts : List String := {lst(jsn)}")
     return {"ignored": ignored, "html": html, "json": jsn}, lean
+
+
+@item("AUTOESCAPE_SHAPE")
+def _autoescape_shape(repo):
+    """the control structure of default_auto_escape_callback that MJ.Safe.autoEscapeOfName transcribes
+    (kept apart from the extension lists so that the model still builds and the name probes give
+    failing inputs when only the shape changes)"""
+    src = read(repo, "minijinja/src/defaults.rs")
+    body = fn_body(src, r"pub fn default_auto_escape_callback\(mut name: &str\) -> AutoEscape\s*\{")
+    if not re.search(r"for ext in IGNORED_EXTENSIONS\s*\{\s*if let Some\(stripped\) = name\.strip_suffix\(ext\)\s*\{\s*name = stripped;\s*break;", body):
+        raise KeyError("default_auto_escape_callback: suffix stripping loop")
+    if not re.search(r"match name\.rsplit\('\.'\)\.next\(\)\s*\{", body):
+        raise KeyError("default_auto_escape_callback: extension = text after the last dot")
+    return True, "def c02AutoEscapeShapeOk : Bool := true"
